@@ -501,7 +501,12 @@ func convArrayTypeToTarget(source interface{}, target reflect.Type) (interface{}
 		if err != nil {
 			return nil, err
 		}
-		sliceValue = reflect.Append(sliceValue, reflect.ValueOf(evalue))
+		ev := reflect.ValueOf(evalue)
+		if !ev.IsValid() {
+			// a null element of an array converted to a slice of interfaces: nil
+			ev = reflect.Zero(target.Elem())
+		}
+		sliceValue = reflect.Append(sliceValue, ev)
 	}
 	return sliceValue.Interface(), nil
 }
